@@ -609,11 +609,11 @@ theorem C09_callsite_order :
       (precededBy (fun (e : PEv) => e.is "stage" "preReadHeader" && e.out == "ok") (fun (e : PEv) => e.is "call" "ReadMessage")) = true ∧
     SrcFlow.sameSet ((live Gen.spaths_session_AsyncCall).map tags)
       [["stage:preWriteCall=fail", "call:done"], ["stage:preWriteCall=ok", "call:write=fail", "call:done"],
-       ["stage:preWriteCall=ok", "call:write=fail", "goto:back"],
+       ["stage:preWriteCall=ok", "call:write=fail", "loop:back"],
        ["stage:preWriteCall=ok", "call:write=ok", "stage:postWriteCall"]] = true ∧
     SrcFlow.sameSet ((live Gen.spaths_session_Push).map fun p => (tags p).filter (· != "setcont:nil"))
       [["stage:preWritePush=fail"], ["stage:preWritePush=ok", "call:write=fail"],
-       ["stage:preWritePush=ok", "call:write=fail", "goto:back"],
+       ["stage:preWritePush=ok", "call:write=fail", "loop:back"],
        ["stage:preWritePush=ok", "call:write=ok", "stage:postWritePush"]] = true ∧
     Gen.spaths_handlerCtx_handleCall.all (fun p => isSubseq (hkeys p)
       ["stage:postReadCallBody", "call:handler", "stage:preWriteReply", "call:writeReply",
